@@ -193,11 +193,11 @@ func (g *gen) families12() {
 	thorough := g.thorough()
 	readersFor := func(k int) []string {
 		if thorough {
-			return []string{"bytes", "file", "zip-store", "zip-deflate", "proto", "proto-empty"}
+			return []string{"bytes", "file", "zip-store", "zip-deflate", "proto", "proto-empty", "file-fifo"}
 		}
 		// quick: every case through the byte reader, every 5th also through one other reader
 		if k%5 == 0 {
-			return []string{"bytes", []string{"file", "zip-store", "zip-deflate", "proto-empty", "proto"}[(k/5)%5]}
+			return []string{"bytes", []string{"file", "zip-store", "zip-deflate", "proto-empty", "proto", "file-fifo"}[(k/5)%6]}
 		}
 		return []string{"bytes"}
 	}
@@ -206,7 +206,7 @@ func (g *gen) families12() {
 		if len(b.name) > 4 && b.name[len(b.name)-4:] == ".zip" {
 			continue
 		}
-		for _, rd := range []string{"bytes", "file", "zip-store", "zip-deflate", "proto", "proto-empty"} {
+		for _, rd := range []string{"bytes", "file", "zip-store", "zip-deflate", "proto", "proto-empty", "file-fifo"} {
 			g.bytesCase("fault-free-sample", b, nil, nil, rd, "")
 		}
 	}
